@@ -26,6 +26,106 @@ type bankEntry struct {
 	Note     string `json:"note"`
 }
 
+type benignEntry struct {
+	ID    string `json:"id"`
+	Edits []struct {
+		File string `json:"file"`
+		Old  string `json:"old"`
+		New  string `json:"new"`
+	} `json:"edits"`
+}
+
+func loadBenign() ([]benignEntry, error) {
+	b, err := os.ReadFile(filepath.Join(verifDir(), "liveness", "benign.json"))
+	if err != nil {
+		return nil, err
+	}
+	var es []benignEntry
+	if err := json.Unmarshal(b, &es); err != nil {
+		return nil, err
+	}
+	return es, nil
+}
+
+// runBenignVariant: exit 0 = the property's rules are silent on the behaviour-preserving
+// variant, 3 = false alarm, 4 = skipped (edit text missing), 5 = does not type-check.
+func runBenignVariant(dir, id, prop string) int {
+	es, err := loadBenign()
+	if err != nil {
+		fmt.Println("ERROR:", err)
+		return 2
+	}
+	var e *benignEntry
+	for i := range es {
+		if es[i].ID == id {
+			e = &es[i]
+		}
+	}
+	if e == nil {
+		fmt.Println("ERROR: no benign entry", id)
+		return 2
+	}
+	overlay := map[string][]byte{}
+	for _, ed := range e.Edits {
+		path := filepath.Join(dir, ed.File)
+		src, ok := overlay[path]
+		if !ok {
+			b, err := os.ReadFile(path)
+			if err != nil {
+				fmt.Println("SKIPPED: cannot read", path)
+				return 4
+			}
+			src = b
+		}
+		if strings.Count(string(src), ed.Old) != 1 {
+			fmt.Printf("SKIPPED: edit text occurs %d times in %s\n", strings.Count(string(src), ed.Old), ed.File)
+			return 4
+		}
+		overlay[path] = []byte(strings.Replace(string(src), ed.Old, ed.New, 1))
+	}
+	p, err := LoadOverlay(dir, "", "", overlay)
+	if err != nil {
+		fmt.Println("NOCOMPILE:", err)
+		return 5
+	}
+	pd := props[prop]
+	r := NewReporter(prop, "quick", p)
+	ctx := &Ctx{P: p, R: r, Tier: "quick", A: ResolveAnchors(p), F: NewFacts(p)}
+	func() {
+		defer func() {
+			if x := recover(); x != nil {
+				r.Rule("checker-panic", "-", "crash", 0)
+				r.Und("checker/panic", "-", fmt.Sprint(x))
+			}
+		}()
+		pd.Run(ctx)
+	}()
+	ctx.emitAnchors()
+	r.closeRule()
+	known, _ := loadKnown(filepath.Join(verifDir(), "known_findings.txt"))
+	var alarms []string
+	for _, o := range r.Obls {
+		if o.st == OK {
+			continue
+		}
+		isKnown := false
+		for _, k := range known {
+			if k.Property == prop && k.Key == o.Key {
+				isKnown = true
+			}
+		}
+		if !isKnown {
+			alarms = append(alarms, o.Key)
+		}
+	}
+	if len(alarms) > 0 {
+		fmt.Printf("FALSE-ALARM: %s on benign variant %s: %v\n", prop, id, alarms)
+		return 3
+	}
+	fmt.Printf("QUIET: %s on %s\n", prop, id)
+	return 0
+}
+
 func loadBank() ([]bankEntry, error) {
 	b, err := os.ReadFile(filepath.Join(verifDir(), "liveness", "bank.json"))
 	if err != nil {
@@ -153,6 +253,55 @@ func runLivenessBank(dir, prop string, r *Reporter) {
 		}(i, e)
 	}
 	wg.Wait()
+	// precision side: behaviour-preserving variants must stay silent
+	if bs, err := loadBenign(); err == nil {
+		type bres struct {
+			id   string
+			code int
+			out  string
+		}
+		bresults := make([]bres, len(bs))
+		var wg2 sync.WaitGroup
+		for i, b := range bs {
+			wg2.Add(1)
+			go func(i int, id string) {
+				defer wg2.Done()
+				sem <- struct{}{}
+				defer func() { <-sem }()
+				cmd := exec.Command(self, "-repo", dir, "-benign", id, "-property", prop)
+				cmd.Env = append(os.Environ(), "VERIF_NO_EVIDENCE=1")
+				out, err := cmd.CombinedOutput()
+				code := 0
+				if err != nil {
+					if ee, ok := err.(*exec.ExitError); ok {
+						code = ee.ExitCode()
+					} else {
+						code = 2
+					}
+				}
+				lines := strings.Split(strings.TrimSpace(string(out)), "\n")
+				bresults[i] = bres{id, code, lines[len(lines)-1]}
+			}(i, b.ID)
+		}
+		wg2.Wait()
+		quiet, bskipped := 0, 0
+		var alarms []string
+		for _, x := range bresults {
+			switch x.code {
+			case 0:
+				quiet++
+			case 4, 5:
+				bskipped++
+			default:
+				alarms = append(alarms, x.out)
+			}
+		}
+		r.Extra["benign_variants"] = map[string]interface{}{"variants": len(bs), "quiet": quiet, "skipped": bskipped, "false_alarms": alarms}
+		fmt.Printf("benign variants for %s: %d variants, %d quiet, %d skipped, %d false alarms\n", prop, len(bs), quiet, bskipped, len(alarms))
+		for _, a := range alarms {
+			fmt.Println("BENIGN-ALARM:", a)
+		}
+	}
 	fired, skipped, nocompile := 0, 0, 0
 	var silent []string
 	var detail []string
